@@ -9,8 +9,6 @@ mod verif_c06 {
     use crate::style::verif_rig_style::*;
     use crate::verif_common::*;
 
-    const TXT: [&str; 3] = ["", "a", "bc"];
-
     /// kind 0: hidden target; 1: console::Term that is not a tty; 2: member of a MultiProgress whose target is hidden
     fn target(kind: u8) -> ProgressDrawTarget {
         match kind {
@@ -24,115 +22,251 @@ mod verif_c06 {
         }
     }
 
-    fn run(kind: u8, nops: usize) {
+    /// group 0: two symbolic numeric operations (u64 arguments); groups 1..=5: one concrete text / finish / println / suspend
+    /// operation (a symbolic choice among operations that carry strings makes every string operation a symbolic-pointer one)
+    fn run(kind: u8, group: u8) {
         let p0: u64 = kani::any();
         let l0: Option<u64> = kani::any();
         let now = mk_instant(1_000_000, 0);
-        let spec = [RigPart::Key("msg")];
-        let mut bs = rig_bar(rig_pstate(p0, l0, 0, 0), rig_style_spec(&spec), target(kind), ProgressFinish::AndLeave);
+        let mut bs = rig_bar(rig_pstate(p0, l0, 0, 0), rig_style_empty(), target(kind), ProgressFinish::AndLeave);
         assert!(bs.draw_target.is_hidden());
         let mut mp = p0;
         let mut ml = l0;
         let mut fin = false;
-        let mut mi = 0usize; // index into TXT of the current message
-        let mut pi = 0usize;
-        let mut i = 0;
-        while i < nops {
-            let op: u8 = kani::any();
-            kani::assume(op < 13);
-            let arg: u64 = kani::any();
-            let ti: usize = kani::any();
-            kani::assume(ti < 3);
-            match op {
-                0 => bs.tick(now),
-                1 => {
-                    bs.state.set_pos(arg);
-                    bs.tick(now);
-                    mp = arg;
-                }
-                2 => {
-                    bs.set_length(now, arg);
-                    ml = Some(arg);
-                }
-                3 => {
-                    bs.inc_length(now, arg);
-                    ml = ml.map(|l| l.saturating_add(arg));
-                }
-                4 => {
-                    bs.dec_length(now, arg);
-                    ml = ml.map(|l| l.saturating_sub(arg));
-                }
-                5 => {
-                    bs.unset_length(now);
-                    ml = None;
-                }
-                6 => {
-                    bs.state.message = TabExpandedString::new(TXT[ti].into(), bs.tab_width);
-                    bs.update_estimate_and_draw(now);
-                    mi = ti;
-                }
-                7 => {
-                    bs.state.prefix = TabExpandedString::new(TXT[ti].into(), bs.tab_width);
-                    bs.update_estimate_and_draw(now);
-                    pi = ti;
-                }
-                8 => {
-                    bs.reset(now, Reset::All);
-                    mp = 0;
-                    fin = false;
-                }
-                9 => {
-                    bs.finish_using_style(now, ProgressFinish::AndLeave);
-                    fin = true;
-                    mp = ml.unwrap_or(mp);
-                }
-                10 => {
-                    bs.finish_using_style(now, ProgressFinish::AbandonWithMessage(TXT[ti].into()));
-                    fin = true;
-                    mi = ti;
-                }
-                11 => bs.println(now, "log"),
-                _ => {
-                    let r = bs.suspend(now, || 9);
-                    assert!(r == 9);
+        let mut mlen = 0usize; // length of the current message
+        let mut plen = 0usize;
+        match group {
+            0 => {
+                let mut i = 0;
+                while i < 2 {
+                    let op: u8 = kani::any();
+                    kani::assume(op < 7);
+                    let arg: u64 = kani::any();
+                    match op {
+                        0 => bs.tick(now),
+                        1 => {
+                            bs.state.set_pos(arg);
+                            bs.tick(now);
+                            mp = arg;
+                        }
+                        2 => {
+                            bs.set_length(now, arg);
+                            ml = Some(arg);
+                        }
+                        3 => {
+                            bs.inc_length(now, arg);
+                            ml = ml.map(|l| l.saturating_add(arg));
+                        }
+                        4 => {
+                            bs.dec_length(now, arg);
+                            ml = ml.map(|l| l.saturating_sub(arg));
+                        }
+                        5 => {
+                            bs.unset_length(now);
+                            ml = None;
+                        }
+                        _ => {
+                            bs.reset(now, Reset::All);
+                            mp = 0;
+                        }
+                    }
+                    assert!(bs.state.pos() == mp && bs.state.len() == ml && !bs.state.is_finished());
+                    i += 1;
                 }
             }
-            assert!(bs.state.pos() == mp);
-            assert!(bs.state.len() == ml);
-            assert!(bs.state.is_finished() == fin);
-            assert!(bs.state.message.expanded().len() == TXT[mi].len());
-            assert!(bs.state.prefix.expanded().len() == TXT[pi].len());
-            i += 1;
+            1 => {
+                bs.state.message = TabExpandedString::new("bc".into(), bs.tab_width);
+                bs.update_estimate_and_draw(now);
+                bs.state.prefix = TabExpandedString::new("a".into(), bs.tab_width);
+                bs.update_estimate_and_draw(now);
+                mlen = 2;
+                plen = 1;
+            }
+            2 => {
+                bs.finish_using_style(now, ProgressFinish::AndLeave);
+                fin = true;
+                mp = ml.unwrap_or(mp);
+            }
+            3 => {
+                bs.finish_using_style(now, ProgressFinish::AbandonWithMessage("bc".into()));
+                fin = true;
+                mlen = 2;
+            }
+            4 => bs.println(now, "log"),
+            _ => {
+                let r = bs.suspend(now, || 9);
+                assert!(r == 9);
+            }
         }
-        kani::cover!(fin && mi == 2);
-        kani::cover!(ml.is_none() && l0.is_some());
+        assert!(bs.state.pos() == mp);
+        assert!(bs.state.len() == ml);
+        assert!(bs.state.is_finished() == fin);
+        assert!(matches!(&bs.state.message, TabExpandedString::NoTabs(s) if s.len() == mlen));
+        assert!(matches!(&bs.state.prefix, TabExpandedString::NoTabs(s) if s.len() == plen));
+        kani::cover!(ml.is_none() || ml.is_some());
         std::mem::forget(bs);
     }
 
-    // @harness id=C06 tier=quick timeout=3000 mem=12
-    // @bounds explicitly hidden target: 2 symbolic operations out of 13 (tick, set position, set/inc/dec/unset length, set message/prefix, reset, finish, abandon_with_message, println, suspend) with u64 arguments
+    // @harness id=C06 tier=quick timeout=1800 mem=6 checks=rust
+    // @bounds explicitly hidden target: two symbolic operations out of {tick, set position, set/inc/dec/unset length, reset} with u64 arguments; every console::Term output method and format_state panic when reached; getters compared with the reference model
     #[kani::proof]
     #[kani::unwind(6)]
     //@STUBS std now nontty nomulti norender rlany noweight
-    fn c06_hidden_target() {
+    fn c06_hidden_target_numeric_ops() {
+        run(0, 0);
+    }
+
+    // @harness id=C06 tier=quick timeout=1800 mem=6 checks=rust
+    // @bounds explicitly hidden target: set_message then set_prefix; every console::Term output method and format_state panic when reached; getters compared with the reference model
+    #[kani::proof]
+    #[kani::unwind(6)]
+    //@STUBS std now nontty nomulti norender rlany noweight
+    fn c06_hidden_target_message_prefix() {
+        run(0, 1);
+    }
+
+    // @harness id=C06 tier=quick timeout=1800 mem=6 checks=rust
+    // @bounds explicitly hidden target: finish; every console::Term output method and format_state panic when reached; getters compared with the reference model
+    #[kani::proof]
+    #[kani::unwind(6)]
+    //@STUBS std now nontty nomulti norender rlany noweight
+    fn c06_hidden_target_finish() {
         run(0, 2);
     }
 
-    // @harness id=C06 tier=quick timeout=3000 mem=12
-    // @bounds console::Term that is not a tty (with its 20 Hz limiter): same 13 operations, 2 in a row
+    // @harness id=C06 tier=quick timeout=1800 mem=6 checks=rust
+    // @bounds explicitly hidden target: abandon_with_message; every console::Term output method and format_state panic when reached; getters compared with the reference model
     #[kani::proof]
     #[kani::unwind(6)]
     //@STUBS std now nontty nomulti norender rlany noweight
-    fn c06_term_not_a_tty() {
+    fn c06_hidden_target_abandon_with_message() {
+        run(0, 3);
+    }
+
+    // @harness id=C06 tier=quick timeout=1800 mem=6 checks=rust
+    // @bounds explicitly hidden target: println; every console::Term output method and format_state panic when reached; getters compared with the reference model
+    #[kani::proof]
+    #[kani::unwind(6)]
+    //@STUBS std now nontty nomulti norender rlany noweight
+    fn c06_hidden_target_println() {
+        run(0, 4);
+    }
+
+    // @harness id=C06 tier=quick timeout=1800 mem=6 checks=rust
+    // @bounds explicitly hidden target: suspend; every console::Term output method and format_state panic when reached; getters compared with the reference model
+    #[kani::proof]
+    #[kani::unwind(6)]
+    //@STUBS std now nontty nomulti norender rlany noweight
+    fn c06_hidden_target_suspend() {
+        run(0, 5);
+    }
+
+    // @harness id=C06 tier=quick timeout=1800 mem=6 checks=rust
+    // @bounds console::Term that is not a tty (with its 20 Hz limiter): two symbolic operations out of {tick, set position, set/inc/dec/unset length, reset} with u64 arguments; every console::Term output method and format_state panic when reached; getters compared with the reference model
+    #[kani::proof]
+    #[kani::unwind(6)]
+    //@STUBS std now nontty nomulti norender rlany noweight
+    fn c06_term_not_a_tty_numeric_ops() {
+        run(1, 0);
+    }
+
+    // @harness id=C06 tier=thorough timeout=1800 mem=6 checks=rust
+    // @bounds console::Term that is not a tty (with its 20 Hz limiter): set_message then set_prefix; every console::Term output method and format_state panic when reached; getters compared with the reference model
+    #[kani::proof]
+    #[kani::unwind(6)]
+    //@STUBS std now nontty nomulti norender rlany noweight
+    fn c06_term_not_a_tty_message_prefix() {
+        run(1, 1);
+    }
+
+    // @harness id=C06 tier=thorough timeout=1800 mem=6 checks=rust
+    // @bounds console::Term that is not a tty (with its 20 Hz limiter): finish; every console::Term output method and format_state panic when reached; getters compared with the reference model
+    #[kani::proof]
+    #[kani::unwind(6)]
+    //@STUBS std now nontty nomulti norender rlany noweight
+    fn c06_term_not_a_tty_finish() {
         run(1, 2);
     }
 
-    // @harness id=C06 tier=quick timeout=3000 mem=14
-    // @bounds member of a MultiProgress whose draw target is hidden: same 13 operations, 2 in a row (real MultiState::draw / suspend / width)
+    // @harness id=C06 tier=thorough timeout=1800 mem=6 checks=rust
+    // @bounds console::Term that is not a tty (with its 20 Hz limiter): abandon_with_message; every console::Term output method and format_state panic when reached; getters compared with the reference model
+    #[kani::proof]
+    #[kani::unwind(6)]
+    //@STUBS std now nontty nomulti norender rlany noweight
+    fn c06_term_not_a_tty_abandon_with_message() {
+        run(1, 3);
+    }
+
+    // @harness id=C06 tier=quick timeout=1800 mem=6 checks=rust
+    // @bounds console::Term that is not a tty (with its 20 Hz limiter): println; every console::Term output method and format_state panic when reached; getters compared with the reference model
+    #[kani::proof]
+    #[kani::unwind(6)]
+    //@STUBS std now nontty nomulti norender rlany noweight
+    fn c06_term_not_a_tty_println() {
+        run(1, 4);
+    }
+
+    // @harness id=C06 tier=quick timeout=1800 mem=6 checks=rust
+    // @bounds console::Term that is not a tty (with its 20 Hz limiter): suspend; every console::Term output method and format_state panic when reached; getters compared with the reference model
+    #[kani::proof]
+    #[kani::unwind(6)]
+    //@STUBS std now nontty nomulti norender rlany noweight
+    fn c06_term_not_a_tty_suspend() {
+        run(1, 5);
+    }
+
+    // @harness id=C06 tier=quick timeout=1800 mem=6 checks=rust
+    // @bounds member of a MultiProgress whose draw target is hidden (real MultiState::draw / suspend / width): two symbolic operations out of {tick, set position, set/inc/dec/unset length, reset} with u64 arguments; every console::Term output method and format_state panic when reached; getters compared with the reference model
     #[kani::proof]
     #[kani::unwind(6)]
     //@STUBS std now nontty norender rlany noweight
-    fn c06_member_of_hidden_multi() {
+    fn c06_member_of_hidden_multi_numeric_ops() {
+        run(2, 0);
+    }
+
+    // @harness id=C06 tier=thorough timeout=1800 mem=6 checks=rust
+    // @bounds member of a MultiProgress whose draw target is hidden (real MultiState::draw / suspend / width): set_message then set_prefix; every console::Term output method and format_state panic when reached; getters compared with the reference model
+    #[kani::proof]
+    #[kani::unwind(6)]
+    //@STUBS std now nontty norender rlany noweight
+    fn c06_member_of_hidden_multi_message_prefix() {
+        run(2, 1);
+    }
+
+    // @harness id=C06 tier=thorough timeout=1800 mem=6 checks=rust
+    // @bounds member of a MultiProgress whose draw target is hidden (real MultiState::draw / suspend / width): finish; every console::Term output method and format_state panic when reached; getters compared with the reference model
+    #[kani::proof]
+    #[kani::unwind(6)]
+    //@STUBS std now nontty norender rlany noweight
+    fn c06_member_of_hidden_multi_finish() {
         run(2, 2);
     }
+
+    // @harness id=C06 tier=thorough timeout=1800 mem=6 checks=rust
+    // @bounds member of a MultiProgress whose draw target is hidden (real MultiState::draw / suspend / width): abandon_with_message; every console::Term output method and format_state panic when reached; getters compared with the reference model
+    #[kani::proof]
+    #[kani::unwind(6)]
+    //@STUBS std now nontty norender rlany noweight
+    fn c06_member_of_hidden_multi_abandon_with_message() {
+        run(2, 3);
+    }
+
+    // @harness id=C06 tier=quick timeout=1800 mem=6 checks=rust
+    // @bounds member of a MultiProgress whose draw target is hidden (real MultiState::draw / suspend / width): println; every console::Term output method and format_state panic when reached; getters compared with the reference model
+    #[kani::proof]
+    #[kani::unwind(6)]
+    //@STUBS std now nontty norender rlany noweight
+    fn c06_member_of_hidden_multi_println() {
+        run(2, 4);
+    }
+
+    // @harness id=C06 tier=quick timeout=1800 mem=6 checks=rust
+    // @bounds member of a MultiProgress whose draw target is hidden (real MultiState::draw / suspend / width): suspend; every console::Term output method and format_state panic when reached; getters compared with the reference model
+    #[kani::proof]
+    #[kani::unwind(6)]
+    //@STUBS std now nontty norender rlany noweight
+    fn c06_member_of_hidden_multi_suspend() {
+        run(2, 5);
+    }
+
 }
